@@ -43,14 +43,14 @@ pub const OPTS: &[(&str, usize, usize)] = &[
     ("error_on_conflicts", 2, 1),
     ("warnings_are_errors", 2, 1),
     ("show_warnings", 2, 1),
-    ("visibility", 6, 0),            // Private, Public, PublicCrate, PublicSuper, PublicSelf, PublicIn("crate")
+    ("visibility", 7, 0),            // Private, Public, PublicCrate, PublicSuper, PublicSelf, PublicIn("crate"), PublicIn("super")
     ("rust_edition", 3, 2),          // 2015, 2018, 2021
     ("mod_name", 4, 0),              // unset, "pm_a", "pm_b", "1bad" (not an identifier)
     ("serialisation_format", 3, 0),  // unset, FixedSizeInteger, VariableSizedInteger
     ("pipeline", 3, 0),              // 0 two builders + rule_ids_map(token_map), 1 two builders without rule_ids_map, 2 lrpar_config
     ("lexerkind", 2, 0),             // unset, LRNonStreamingLexer
     ("lex_mod_name", 4, 0),
-    ("lex_visibility", 6, 0),
+    ("lex_visibility", 7, 0),
     ("lex_rust_edition", 3, 2),
     ("allow_missing_terms_in_lexer", 2, 0),
     ("allow_missing_tokens_in_parser", 2, 0),
@@ -158,6 +158,7 @@ fn cfg_parser<'a>(
         3 => lrpar::Visibility::PublicSuper,
         4 => lrpar::Visibility::PublicSelf,
         5 => lrpar::Visibility::PublicIn("crate".to_string()),
+        6 => lrpar::Visibility::PublicIn("super".to_string()),
         _ => lrpar::Visibility::Private,
     });
     b = b.rust_edition(match s[6] {
@@ -195,6 +196,7 @@ fn cfg_lexer<'a>(
         3 => lrlex::Visibility::PublicSuper,
         4 => lrlex::Visibility::PublicSelf,
         5 => lrlex::Visibility::PublicIn("crate".to_string()),
+        6 => lrlex::Visibility::PublicIn("super".to_string()),
         _ => lrlex::Visibility::Private,
     });
     b = b.rust_edition(match s[13] {
@@ -923,6 +925,11 @@ fn corpus() -> Vec<((usize, usize, Vec<usize>), Vec<(Op, u64)>)> {
         // lexer becomes unparsable / unreadable; missing token
         ((1, 1, d.clone()), vec![b.clone(), (Op::EditL(5), 1), b.clone(), (Op::EditL(0), 1), b.clone(), (Op::EditL(1), 1), b.clone(), (Op::EditG(2), 1), b.clone()]),
         ((1, 1, nested.clone()), vec![b.clone(), (Op::EditL(5), 1), b.clone(), (Op::EditL(1), 1), b.clone(), (Op::EditG(2), 1), b.clone(), (Op::Opt(14, 1), 1), b.clone()]),
+        // options that carry data: only the data changes between two builds (same variant / same setter)
+        ((1, 1, { let mut x = d.clone(); x[5] = 5; x }), vec![b.clone(), (Op::Opt(5, 6), 1), b.clone(), (Op::Opt(5, 5), 1), b.clone()]),
+        ((1, 1, { let mut x = d.clone(); x[12] = 5; x }), vec![b.clone(), (Op::Opt(12, 6), 1), b.clone(), (Op::Opt(12, 5), 1), b.clone()]),
+        ((1, 1, { let mut x = nested.clone(); x[5] = 6; x[12] = 6; x }), vec![b.clone(), (Op::Opt(5, 5), 1), b.clone(), (Op::Opt(12, 5), 1), b.clone()]),
+        ((1, 1, { let mut x = d.clone(); x[7] = 1; x[11] = 1; x }), vec![b.clone(), (Op::Opt(7, 2), 1), b.clone(), (Op::Opt(11, 2), 1), b.clone()]),
         // option changes that make the build fail early (warnings_are_errors, yacckind) and back
         ((9, 1, { let mut x = d.clone(); x[3] = 0; x }), vec![b.clone(), (Op::Opt(3, 1), 1), b.clone(), (Op::Opt(3, 0), 1), b.clone()]),
         ((1, 1, d.clone()), vec![b.clone(), (Op::Opt(0, 3), 1), b.clone(), (Op::Opt(0, 0), 1), b.clone(), (Op::Opt(0, 2), 1), b.clone(), (Op::Opt(7, 3), 1), b.clone()]),
